@@ -637,6 +637,9 @@ def rule_combine_order(em, rep, rid):
             if isinstance(s, ast.For):
                 loopvars |= {x.id for x in ast.walk(s.target) if isinstance(x, ast.Name)}
         key = '%s:%s' % (f.qname, norm(c))
+        if any(isinstance(a, ast.Starred) for a in c.args):
+            rep.note(rid, 'the chaining helper is called with a sequence of definitions (%s): their order is not decided here' % norm(c), f.loc(c))
+            continue
         if len(c.args) != 2:
             rep.violation(rid, key, 'chaining helper is not called with (old, new)', f.loc(c))
             continue
@@ -658,7 +661,9 @@ def rule_combine_order(em, rep, rid):
             if set(ids) == set(ps[:2]):
                 ok = ids == ps[:2]
     src = norm(helper.node)
-    if ok is None:
+    if ok is None and len(ps) < 2 and helper.node.args.vararg is not None:
+        ok = True           # the definitions arrive as one sequence and are run in that order (unless reversed, below)
+    if ok is None and len(ps) >= 2:
         # sequential delegation
         pos = [src.find('%s(' % p) for p in ps[:2]]
         if all(x >= 0 for x in pos):
